@@ -599,6 +599,11 @@ func (c connectStreamServerProtocol) decodeEndFromMessage(_ *operation, buffer *
 	}
 	var cerr *connect.Error
 	if streamEnd.Error != nil {
+		if streamEnd.Error.Code == 0 {
+			// An error must not carry the OK code (a missing code reads as
+			// that, too): the RPC failed, for a reason we cannot name.
+			streamEnd.Error.Code = connect.CodeUnknown
+		}
 		cerr = streamEnd.Error.toConnectError()
 	}
 	return responseEnd{
